@@ -25,10 +25,14 @@ PID = 'C03'
 FILES = ['lib/Cases.v', 'lib/Conn.v',
          'C02_Model.v', 'C02_Proofs.v', 'C02_Properties.v',
          'C04_Model.v', 'C04_Proofs.v', 'C04_Properties.v',
+         'C07_Model.v', 'C07_Proofs.v', 'C07_Properties.v',
+         'C07R_Model.v', 'C07R_Proofs.v', 'C07R_Properties.v',
+         'C14_Model.v', 'C14_Proofs.v',
+         'C16_Model.v', 'C16_Proofs.v', 'C16_Properties.v',
          'C17_Model.v', 'C17_Proofs.v', 'C17_Properties.v',
          'C18_Model.v', 'C18_Proofs.v', 'C18_Properties.v',
          'C19_Model.v', 'C19_Proofs.v', 'C19_Properties.v',
-         'C03_Model.v', 'C03_Proofs.v', 'C03_Links.v', 'C03_Detect.v', 'C03_Properties.v']
+         'C03_Model.v', 'C03_Proofs.v', 'C03_Links.v', 'C03_Detect.v', 'C03_Peaks.v', 'C03_Properties.v']
 
 POS_TOL = 1e-9        # float positions after subtracting the offset ("a few ulp / 1e-9")
 RTOL = 1e-10          # fluxes / areas / shapes when the code path depends on the offset
@@ -1619,7 +1623,7 @@ GROUP_FN = {g[0]: g for g in GROUPS}
 # APIs whose relation is backed by a Coq covariance theorem (C03_Properties.v); the others are tests only
 THEOREM_BACKED = ('aperture_photometry', 'CircularAperture', 'CircularAnnulus', 'EllipticalAperture', 'EllipticalAnnulus',
                   'RectangularAperture', 'RectangularAnnulus', 'detect_sources', 'SegmentationImage', 'SourceCatalog',
-                  'RadialProfile', 'CurveOfGrowth', 'make_model_image', 'centroid_com')
+                  'RadialProfile', 'CurveOfGrowth', 'make_model_image', 'centroid_com', 'ApertureStats', 'find_peaks')
 
 
 def run_group(name, sc, T, gseed):
@@ -1648,14 +1652,16 @@ def run(ctx):
         'non-trivial = at least one relation was evaluated; plus exact-lattice cases of from_float / overlap '
         'slices / embed-crop / transpose / moments / label bbox evaluated inside Coq')
     ctx.assumptions += [
-        'the covariance theorems of C02 / C04 / C17 / C18 / C19 are cited from those properties\' stable models; their '
+        'the covariance theorems of C02 / C04 / C07 / C07R / C14 / C16 / C17 / C18 / C19 are cited from those properties\' stable models; their '
         'tie to /repo is the correspondence check of those properties',
         'float positions are compared after subtracting the offset with atol 1e-9; fluxes bitwise on 1/8-lattice scenes, '
         'rtol 1e-10 otherwise; library fitters (centroid_1dg/2dg, lstsq) to their convergence tolerance']
     ctx.cov['partial_clauses'] = [
-        'star finders, find_peaks, deblend_sources, ApertureStats, centroid_quadratic/1dg/2dg, Kron / windowed-centroid '
-        'quantities of SourceCatalog: no covariance theorem (library numerics or models of C01/C07/C14/C16 still being '
-        'edited) -- metamorphic test only (support_tests)',
+        'star finders (beyond their find_peaks stage), deblend_sources, centroid_quadratic/1dg/2dg, Kron / windowed-centroid '
+        'quantities of SourceCatalog, the npeaks / border_width / centroid_func options of find_peaks: no covariance '
+        'theorem (library numerics) -- metamorphic test only (support_tests)',
+        'orientation_transposes_R / shape_invariants_transpose_R are statements over the classical reals of Coq '
+        '(standard-library axioms of Reals, listed by Print Assumptions); every other theorem is axiom-free',
         'sources whose measurement footprint is not inside the original frame are skipped and counted (skipped:*)']
     quick = ctx.tier == 'quick'
     # ---- exact-lattice correspondence
